@@ -241,6 +241,7 @@ fn drain_proto<I: Iterator, F: FnMut(I::Item) -> Item>(mut it: I, cap: usize, k:
             }
             Fin::Last => po.last = Some(it.last().map(|x| f2(&mut push, x))),
             Fin::Count => po.count = Some(it.count()),
+            Fin::Drop => drop(it),
             Fin::Nth(n) => {
                 po.nth = Some(it.nth(n).map(|x| f2(&mut push, x)));
                 while let Some(x) = it.next() {
@@ -845,6 +846,7 @@ fn proto_generic<I: Iterator, X: PartialEq + Clone + std::fmt::Debug, F: FnMut(I
                 return Some(format!("{} next() calls then last() = {:?}, a plain traversal ends with {:?}", k, l, rem.last()));
             }
         }
+        Fin::Drop => drop(it),
         Fin::Count => {
             let c = it.count();
             if c != rem.len() {
